@@ -65,8 +65,47 @@ def acc_targets():
     return out
 
 
+def mangled(*parts):
+    return lambda d: all(p in (d.get('mangledName') or '') for p in parts)
+
+
+def iter_targets():
+    H = 'specs/C09/iter.h'
+    ITU = 'src/dataset/iterator.cpp'
+    types = [(r'^nano::(flatten|targets|base_dataset)_iterator_t$', 'struct nv_iter'), (r'^nano::tensor_range_t$', 'struct nv_range'),
+             (r'^nano::(flatten_targets|flatten|targets)_callback_t$|^std::function<', 'struct nv_cb'), (r'^nano::dataset_t$', 'struct nv_dataset'),
+             (r'^nano::tensor[24]d_cmap_t$|tensor_t<nano::tensor_carray_storage_t, double, [24]', 'struct nv_view'),
+             (r'^nano::parallel::pool_t$|^parallel::pool_t$', 'struct nv_poolref'), (r'^\(lambda at .*iterator\.cpp', 'struct nv_cb')]
+    common = dict(self_struct='struct nv_iter', types=types, uf_float=False)
+    members = [(r'^map\|nano::base_dataset_iterator_t \*', 'nv_iter_map({self}, {0}, {1})'), (r'^samples\|nano::targets_iterator_t \*', '(*{self})'),
+               (r'^size\|nano::tensor_base_t<long, 1, true>', '{self}->n_samples'), (r'^batch\|nano::targets_iterator_t \*', '{self}->m_batch'),
+               (r'^flatten\|nano::flatten_iterator_t \*', 'nv_flatten({self}, {0}, {&1})'), (r'^targets\|nano::targets_iterator_t \*', 'nv_targets({self}, {0}, {&1})'),
+               (r'^thread_pool\|nano::dataset_t', '(*nv_thread_pool({self}))'), (r'^map\|(nano::)?parallel::pool_t', 'nv_pool_map({self}, {0}, {1})')]
+    calls = [(r'^make_range\|', 'make_range({0}, {1})'),
+             (r'^operator\(\)\|void \(nano::tensor_range_t, unsigned long, nano::tensor_t<nano::tensor_carray_storage_t, double, 2>, nano::tensor_t<nano::tensor_carray_storage_t, double, 4>\) const', 'nv_callback_ft({&0}, {1}, {2}, {3}, {4})'),
+             (r'^operator\(\)\|void \(nano::tensor_range_t, unsigned long, nano::tensor_t<nano::tensor_carray_storage_t, double, 2>\) const', 'nv_callback_f({&0}, {1}, {2}, {3})'),
+             (r'^operator\(\)\|void \(nano::tensor_range_t, unsigned long, nano::tensor_t<nano::tensor_carray_storage_t, double, 4>\) const', 'nv_callback_t({&0}, {1}, {2}, {3})')]
+    rng = lambda: Fn('range_ctor', ITU, 'tensor_range_t', flt='nano::tensor_range_t::tensor_range_t', kinds=('CXXConstructorDecl',),
+                     select=lambda d: len(astload.param_types(d)) == 2, self_struct='struct nv_range', types=types, uf_float=False)
+    mkr = lambda: Fn('make_range', ITU, 'make_range', flt='nano::make_range', types=types, uf_float=False,
+                     calls=[(r'^ctor\|nano::tensor_range_t\|void \((const )?nano::tensor_size_t, (const )?nano::tensor_size_t\)', 'nv_range_make({0}, {1})')])
+    out = [Target('range_ctor', [rng()], H), Target('make_range', [mkr(), rng()], H)]
+    variants = [('flatten_loop_ft', 'flatten_iterator_t::loop', lambda d: 'flatten_targets_callback_t' in astload.param_types(d)[0], ('flatten_iterator_t4loopE', 'dLm4E')),
+                ('flatten_loop_f', 'flatten_iterator_t::loop', lambda d: 'flatten_callback_t' in astload.param_types(d)[0], None),
+                ('targets_loop', 'targets_iterator_t::loop', None, None)]
+    for cname, flt, sel, _ in variants:
+        loop = Fn(cname, ITU, 'loop', flt=flt, select=sel, members=members, calls=calls, **common)
+        task = Fn(cname + '_task', ITU, 'loop', flt=flt, select=sel, lambda_index=0, members=members, calls=calls,
+                  extra_params=['const struct nv_cb* callback'], **common)
+        out += [Target(cname, [loop], H), Target(cname + '_task', [task, mkr(), rng()], H)]
+    bmap = Fn('base_map', ITU, 'map', flt='base_dataset_iterator_t::map', select=mangled('flatten_iterator_t4loopE', 'dLm4E'),
+              members=members, **common)
+    out.append(Target('base_map', [bmap], H))
+    return out
+
+
 def build(tier):
-    targets = reduce_targets() + acc_targets()
+    targets = reduce_targets() + acc_targets() + iter_targets()
     return {
         'targets': targets, 'vcs': [],
         'decided': [], 'not_decided': [], 'assumptions': [], 'trusted': [],
